@@ -66,6 +66,18 @@ static void build_vectors (void)
     }
     def = orc_target_get_default_flags (t);
     for (i = 0; i < ts->nfeat; i++) allfeat |= ts->feat[i];
+    if (!strcmp (opt.vectors, "minimal")) {
+      /* the flag vectors below the three-byte opcode maps, 64-bit: sse {SSE2; SSE2+SSE3; SSE2+SSE3+SSSE3}, mmx {MMX+MMXEXT;
+       * MMX+MMXEXT+SSSE3} */
+      if (!strcmp (s, "sse")) {
+        unsigned fv[3] = { ORC_TARGET_SSE_SSE2, ORC_TARGET_SSE_SSE2 | ORC_TARGET_SSE_SSE3, ORC_TARGET_SSE_SSE2 | ORC_TARGET_SSE_SSE3 | ORC_TARGET_SSE_SSSE3 };
+        for (i = 0; i < 3; i++) { vecs[nvecs].ts = ts; vecs[nvecs].target = t; vecs[nvecs].flags = fv[i] | B64 | (def & BFP); nvecs++; }
+      } else if (!strcmp (s, "mmx")) {
+        unsigned fv[2] = { ORC_TARGET_MMX_MMX | ORC_TARGET_MMX_MMXEXT, ORC_TARGET_MMX_MMX | ORC_TARGET_MMX_MMXEXT | ORC_TARGET_MMX_SSSE3 };
+        for (i = 0; i < 2; i++) { vecs[nvecs].ts = ts; vecs[nvecs].target = t; vecs[nvecs].flags = fv[i] | B64 | (def & BFP); nvecs++; }
+      }
+      continue;
+    }
     if (!strcmp (opt.vectors, "env")) {
       /* host feature set x {64,32} x frame pointer x short jumps */
       for (e = 0; e < 8; e++) {
